@@ -197,6 +197,11 @@ def installed(streams, clock=None, sandbox=None, capture=None, sync_threads=True
 
     shim = _DatetimeModuleShim(clock)
     patch(_uuid, "uuid4", make_uuid4(streams.get("uuid")))
+    # the process-wide generator of the random module is a source the package could draw from as
+    # well (ids, names): seeded per run, its state given back afterwards
+    import random as _random
+    random_state = _random.getstate()
+    _random.seed(streams.get("random-module").getrandbits(64))
     patch(odml.dtypes, "dt", shim)
     patch(odml.terminology, "datetime", shim)
     patch(odml.templates, "dati", shim.datetime)
@@ -247,6 +252,7 @@ def installed(streams, clock=None, sandbox=None, capture=None, sync_threads=True
         yield env
     finally:
         cm.__exit__(None, None, None)
+        _random.setstate(random_state)
         sys.stdout, sys.stderr = old_out, old_err
         for obj, name, value in reversed(saved):
             setattr(obj, name, value)
